@@ -1,4 +1,12 @@
 MSG_CPP = 'src/lib/ebus/message.cpp'
+MSG_H = 'src/lib/ebus/message.h'
+
+# MessageMap::find(circuit, name, levels, isWrite, isPassive): the name key construction and the map lookup are abstracted (key 1 = with circuit,
+# key 2 = without circuit); the loop, the "second try only without circuit" rule and the level gate stay as written
+_FIND = [(r'string lcircuit = circuit;\s*FileReader::tolower\(&lcircuit\);\s*string lname = name;\s*FileReader::tolower\(&lname\);\s*string suffix = [^;]+;', '_Bool lcircuit_empty = env_circuit_empty(circuit);', 1),
+         (r'string nameKey;', 'int nameKey = 0;', 1), (r'nameKey = lcircuit \+ suffix;', 'nameKey = 1;', 1), (r'nameKey = suffix;', 'nameKey = 2;', 1),
+         (r'lcircuit\.empty\(\)', 'lcircuit_empty', 1),
+         (r'const auto it = m_messagesByName\.find\(nameKey\);\s*if \(it != m_messagesByName\.end\(\)\) \{\s*Message\* message = getFirstAvailable\(it->second\);', '{\n      Message* message = env_lookup(nameKey);', 1)]
 
 UNIT = dict(
     trusted=['std::string is a bounded value model (stated bound per run)'],
@@ -10,7 +18,12 @@ UNIT = dict(
         defaults={'vstr_find_str': (3, ['0'])},
         text_subs=[(r'vstr::npos', 'VSTR_NPOS'), (r'\(\*checkLevels\) == "\*"', "vstr_eq_lit1(checkLevels, '*')"), (r'vstr_find_str\(checkLevels, \(\*level\)', 'vstr_find_str(checkLevels, level')],
     ),
-    functions=[dict(file=MSG_CPP, name='Message::checkLevel', cname='Message_checkLevel', self=None)],
+    functions=[dict(file=MSG_CPP, name='Message::checkLevel', cname='Message_checkLevel', self=None),
+               dict(file=MSG_H, inline_class='Message', name='hasLevel', cname='Message_hasLevel', self='struct Message',
+                    cfg=dict(members={'m_level'}, static_calls={'checkLevel': 'Message_checkLevel'}, text_subs=[(r'checkLevel\(self->m_level, \(\*levels\)\)', 'Message_checkLevel(&self->m_level, levels)')])),
+               dict(file=MSG_CPP, name='MessageMap::find', sig='const string& circuit, const string& name, const string& levels', cname='MM_find_by_name', self='struct MessageMap',
+                    pre_subs=_FIND, cfg=dict(type_map={'string': 'vstr', 'Message': 'struct Message'}, methods={'hasLevel': 'Message_hasLevel'}, defaults={'Message_hasLevel': (3, ['true'])},
+                             text_subs=[(r'env_circuit_empty\(\(\*circuit\)\)', 'env_circuit_empty(circuit)'), (r'Message_hasLevel\(message, \(\*levels\), true\)', 'Message_hasLevel(message, levels, true)')]))],
     runs=[],
 )
 
@@ -22,3 +35,5 @@ def R(id, entry, enforce=None, replace=(), loops=False, props=('C16', 'C20'), **
 
 R('checkLevel', 'h_checkLevel', None, unwind=12, defines=['VSTR_CAP=9'], cost=60, timeout=1500,
   bounded='level list up to 9 characters, level up to 9 characters (string model capacity)')
+R('find_by_name', 'h_find_by_name', None, unwind=8, defines=['VSTR_CAP=5'], cost=60, timeout=1500,
+  bounded='level list and level up to 5 characters (string model capacity)')
